@@ -64,14 +64,25 @@ class World:
         channel's ids, and an SDO response addressed to the second remote node"""
         self.noise += 1
         k = self.noise
-        # ids that belong to no node's predefined connection set: 0x101..0x17F or any 29-bit id >= 0x800
-        if sx.choice(2, "noise_ext%d" % k):
-            fid = sx.fresh_int("noise_id%d" % k, 0x800, 0x1FFFFFFF)
-        else:
-            fid = sx.fresh_int("noise_id%d" % k, 0x101, 0x17F)
+        # ids that belong to no node's predefined connection set: 0x101..0x17F, any 29-bit id >= 0x800, or an
+        # extended id whose low 11 bits equal one of this channel's ids (arrives through the bus listener)
+        kind = sx.choice(3, "noise_kind%d" % k)
         junk = sx.fresh_bytes("noise%d" % k, 8)
-        self.na.notify(fid, junk, 0.5)
-        self.nb.notify(fid, junk, 0.5)
+        if kind == 2:
+            hi = sx.fresh_int("noise_hi%d" % k, 1, 0x3FFFF)
+            low = (0x600 + NID, 0x580 + NID)[sx.choice(2, "noise_low%d" % k)]
+            fid = (hi << 11) | low
+            can = sx.mod("canopen.network").can
+            for net in (self.na, self.nb):
+                msg = can.Message(arbitration_id=fid, data=junk, is_extended_id=True, timestamp=0.5)
+                net.listeners[0].on_message_received(msg)
+        else:
+            if kind == 1:
+                fid = sx.fresh_int("noise_id%d" % k, 0x800, 0x1FFFFFFF)
+            else:
+                fid = sx.fresh_int("noise_id%d" % k, 0x101, 0x17F)
+            self.na.notify(fid, junk, 0.5)
+            self.nb.notify(fid, junk, 0.5)
         if self.node2_noise:
             other = sx.fresh_bytes("node2_resp%d" % k, 8)
             self.to_node2.append(other)
@@ -234,6 +245,24 @@ def record_member(discipline):
     sx.reach("record")
 
 
+def stale_responses(k):
+    """k stale frames sit in the client's queue (answers of timed-out requests that arrived late): the next
+    typed read and write must not be affected by any of them"""
+    w = World("inline")
+    idx = C.TYPE_INDEX[0x07]
+    a = sx.fresh_int("a", 0, 0xFFFFFFFF)
+    w.remote.sdo[idx].raw = a
+    for i in range(k):
+        w.na.notify(0x580 + NID, sx.fresh_bytes("stale%d" % i, 8), 0.1)
+    sx.prove(w.remote.sdo[idx].raw == a, "stale responses changed a typed read", "C03/stale/read")
+    for i in range(k):
+        w.na.notify(0x580 + NID, sx.fresh_bytes("stale_b%d" % i, 8), 0.1)
+    b = sx.fresh_int("b", 0, 0xFFFFFFFF)
+    w.remote.sdo[idx].raw = b
+    sx.prove(w.local.sdo[idx].raw == b, "stale responses broke a typed write", "C03/stale/write")
+    sx.reach("stale-responses")
+
+
 def two_nodes(discipline):
     """transfers to two different nodes interleaved at message level never see each other's data"""
     w = World(discipline)
@@ -264,6 +293,8 @@ def jobs(tier):
         out.append(dict(func="boolean", params=dict(discipline=d)))
         out.append(dict(func="record_member", params=dict(discipline=d)))
         out.append(dict(func="two_nodes", params=dict(discipline=d)))
+    for k in (1, 2, 3):
+        out.append(dict(func="stale_responses", params=dict(k=k)))
         for code in (S301.REAL32, S301.REAL64):
             out.append(dict(func="real", params=dict(code=code, discipline=d), weight=30, limits=dict(fast_ms=500)))
     tl = range(0, 7) if q else range(0, 13)
@@ -298,7 +329,7 @@ META = dict(
     assumptions=["at most 2 noise injections per scenario; noise ids outside every predefined connection set"],
     stubs=["queue with delivery hook", "struct", "bytes", "io model", "logging", "Network.send_message replaced by the loopback"],
     required_reach=["numeric-inline", "numeric-deferred", "numeric-interleaved", "access-index", "access-name", "boolean",
-                    "real", "text", "blob", "domain-segmented", "record", "two-nodes"],
+                    "real", "text", "blob", "domain-segmented", "record", "two-nodes", "stale-responses"],
     limits=dict(quick=dict(max_decisions=50000), thorough=dict(max_decisions=100000)),
     validate_every=dict(quick=7, thorough=50),
     max_validate=dict(quick=10, thorough=10),
